@@ -321,6 +321,34 @@ def random_universe(rng):
     return {"L": length, "circ": circ, "genes": genes, "areas": areas}
 
 
+def wrapped_and_row_universe(rng):
+    """ a ring with one region over the origin: a protocluster that starts in the first half of the record and reaches
+        over the origin, and behind the origin a row of two protoclusters that do not overlap each other, tied together
+        by a third; the first of the row usually overlaps the tail of the origin-spanning one """
+    length = rng.choice([60, 100, 150])
+    unit = length // 30
+    start = rng.randrange(length // 3, length // 2)
+    tail = rng.randrange(2 * unit, 4 * unit)
+    core_start = rng.randrange(start + 1, start + 6 * unit)
+    wrapped = {"kind": "proto", "core": _span(core_start, core_start + rng.randrange(1, 3 * unit)),
+               "extent": {"parts": [[start, length], [0, tail]], "strand": 1}, "product": "a"}
+    f_start = rng.randrange(max(0, tail - 2 * unit), tail + rng.choice([0, 0, 0, unit]))
+    f_end = max(f_start + 2, tail + rng.randrange(0, 2 * unit))
+    s_start = f_end + rng.randrange(1, 2 * unit)
+    s_end = s_start + rng.randrange(2, 3 * unit)
+    b_start = rng.randrange(f_start + 1, f_end)
+    b_end = rng.randrange(s_start + 1, s_end + 1)
+
+    def proto(first, last, product):
+        core = rng.randrange(first, last)
+        return {"kind": "proto", "core": _span(core, min(last, core + 1)), "extent": _span(first, last), "product": product}
+
+    areas = [proto(f_start, f_end, "b"), proto(b_start, b_end, "c"), proto(s_start, s_end, "d"), wrapped]
+    rng.shuffle(areas)
+    genes = [{"loc": dict(_span(core_start, core_start + 1), strand=1), "core_for": ["a"]}]
+    return {"L": length, "circ": True, "genes": genes, "areas": areas}
+
+
 def _span(start, end):
     return {"parts": [[start, end]], "strand": 1}
 
@@ -457,6 +485,8 @@ def run(ctx):
     enumerated = len(cases)
     for _ in range(randoms):
         cases.append({"uni": random_universe(rng), "sampled": True})
+    for _ in range(randoms // 10):
+        cases.append({"uni": wrapped_and_row_universe(rng), "sampled": True})
     for idx, case in enumerate(cases):
         case["id"] = idx
 
